@@ -201,7 +201,35 @@ theorem start_after_any_run_loads (s : State) (h : Init Loaded s) (sched : List 
   rw [hd] at hok
   exact hh.loaded hok
 
+/-! ## the precondition `Consistent` is necessary -/
+
+/-- **inconsistent_home_stays_incomplete**: a home that evo itself cannot have left behind — a complete
+settings.json that lacks default keys next to a *missing* or a *current* assets_version (e.g. the
+version file was deleted by hand) — is not `Consistent`, and a start of the repaired code neither
+fails nor repairs it: no upgrade is triggered, the process ends with a SETTINGS that lacks those
+keys, and the file stays as it was (so every later start sees the same).  Hence "every default key
+is loaded" cannot be proved without the precondition; `Safe` (absent or complete JSON) still holds. -/
+theorem inconsistent_home_stays_incomplete (fs : FS) (d : Doc) (hd : fs.dir = true)
+    (hS : fs.file (.file .S) = .full (.doc d)) (hlack : hasDefaults d = false)
+    (hV : fs.file (.file .V) = .absent ∨ fs.file (.file .V) = .full (.ver current)) :
+    ¬ Consistent fs ∧ Safe fs ∧
+    (let s := run ⟨fs, [⟨start .done, {}, false⟩]⟩ (List.replicate 9 (0, false))
+     s.procs.map (fun p => (p.failed, p.prog.isDone, p.regs.loaded)) = [(false, true, some d)] ∧
+     s.fs.file (.file .S) = .full (.doc d) ∧ s.fs.file (.file .V) = .full (.ver current)) := by
+  refine ⟨?_, Or.inr (by simp [hS, File.isDoc]), ?_⟩
+  · intro hc
+    rcases hc.2 hV with h | h
+    · rw [hS] at h; cases h
+    · rw [hS] at h; simp [File.wf, hlack] at h
+  · rcases hV with hV | hV <;>
+      simp [run, State.sched, step, start, initProg, update, load, resetAll, writeAtomic, hd, hV, hS,
+        Proc.fail, List.replicate, PRef.path, Src.text, Regs.put, Prog.isDone]
+
 /-! ## non-vacuity: concrete runs of the repaired programs -/
+
+/-- the hypotheses of `inconsistent_home_stays_incomplete` are satisfiable -/
+example : hasDefaults (Evo.Gen.defaultKeys.drop 3) = false := by decide
+
 
 /-- two first starts on an empty home form an initial state -/
 example : Init Loaded ⟨FS.fresh, [⟨start .done, {}, false⟩, ⟨start .done, {}, false⟩]⟩ :=
